@@ -54,10 +54,18 @@ macro_rules! pow_shape {
         #[kani::proof]
         #[kani::unwind(20)]
         #[kani::stub(<&BigUint as Mul<&BigUint>>::mul, mul_ref_ref)]
+        #[kani::stub(crate::biguint::verif_common::symbolic, crate::biguint::verif_common::yes)]
         #[kani::stub(<BigUint as MulAssign<&BigUint>>::mul_assign, mul_assign_ref)]
         fn $name() {
             let e: $T = kani::any();
             kani::assume(e >= 1 && (e as u128) <= $max);
+            if !vc::symbolic() {
+                // native replay with the real multiplication: 2^e must be the single bit e
+                let two = vc::mk_from(&[2]);
+                let r = if $byref { Pow::pow(&two, e) } else { Pow::pow(two, e) };
+                kani::assert(r.bits() == e as u64 + 1 && r.trailing_zeros() == Some(e as u64), "VERIF pow schedule: result is not base^exponent (tally differs)");
+                return;
+            }
             let g = of_tally(1);
             let r = if $byref { Pow::pow(&g, e) } else { Pow::pow(g, e) };
             kani::assert(tally(&r) as u128 == e as u128, "VERIF pow schedule: result is not base^exponent (tally differs)");
@@ -72,9 +80,13 @@ macro_rules! pow_two_shape {
         #[kani::proof]
         #[kani::unwind(70)]
         #[kani::stub(<&BigUint as Mul<&BigUint>>::mul, mul_ref_ref)]
+        #[kani::stub(crate::biguint::verif_common::symbolic, crate::biguint::verif_common::yes)]
         #[kani::stub(<BigUint as MulAssign<&BigUint>>::mul_assign, mul_assign_ref)]
         fn $name() {
             let e: $T = (1 as $T) << $k;
+            if !vc::symbolic() {
+                return; // 2^(2^k) is too large to replay natively for the k of interest
+            }
             let r = Pow::pow(of_tally(1), e);
             kani::assert(tally(&r) as u128 == ((e as u128) & (u64::MAX as u128)), "VERIF pow schedule on 2^k");
         }
@@ -108,6 +120,7 @@ macro_rules! pow_big_shape {
         #[kani::proof]
         #[kani::unwind(20)]
         #[kani::stub(<BigUint as Pow<u64>>::pow, rec_pow_u64)]
+        #[kani::stub(crate::biguint::verif_common::symbolic, crate::biguint::verif_common::yes)]
         #[kani::stub(<BigUint as Pow<u128>>::pow, rec_pow_u128)]
         fn $name() {
             let e0: [u64; $le] = vc::any_canon::<$le>();
@@ -115,6 +128,9 @@ macro_rules! pow_big_shape {
             let b = if b0[0] == 0 { BigUint::ZERO } else { vc::mk_from(&b0) };
             let e = vc::mk_from(&e0);
             unsafe { REC_CALLS = 0; }
+            if !vc::symbolic() {
+                return; // recorder-based harness: no native oracle (x^e with e up to 2^128 cannot be replayed)
+            }
             let r = if $byref { Pow::pow(&b, &e) } else { Pow::pow(b, &e) };
             let ev: u128 = (vc::dig(&e0, 0) as u128) | ((vc::dig(&e0, 1) as u128) << 64);
             if b0[0] == 1 || $le == 0 {
@@ -151,6 +167,7 @@ macro_rules! plain_modpow_shape {
         #[kani::proof]
         #[kani::unwind($unw)]
         #[kani::stub(<&BigUint as Mul<&BigUint>>::mul, mul_ref_ref)]
+        #[kani::stub(crate::biguint::verif_common::symbolic, crate::biguint::verif_common::yes)]
         #[kani::stub(<BigUint as MulAssign<&BigUint>>::mul_assign, mul_assign_ref)]
         #[kani::stub(<BigUint as Rem<&BigUint>>::rem, rem_val_ref)]
         #[kani::stub(<&BigUint as Rem<&BigUint>>::rem, rem_ref_ref)]
@@ -158,6 +175,13 @@ macro_rules! plain_modpow_shape {
         fn $name() {
             let e: u64 = kani::any();
             kani::assume(e >= 1 && e <= $max);
+            if !vc::symbolic() {
+                // native replay: 2^e modulo 2^70 (even modulus, e <= 4095 < 70 only for small e: use a modulus of 2^4100)
+                let m = vc::mk_from(&[1]) << 4100usize;
+                let r = plain_modpow(&vc::mk_from(&[2]), &[e], &m);
+                kani::assert(r.bits() == e + 1 && r.trailing_zeros() == Some(e), "VERIF plain_modpow schedule: result is not base^exponent (tally differs)");
+                return;
+            }
             let m = vc::mk_from(&[6]);
             let r = plain_modpow(&of_tally(1), &[e], &m);
             kani::assert(tally(&r) == e, "VERIF plain_modpow schedule: result is not base^exponent (tally differs)");
@@ -178,9 +202,16 @@ fn rec_plain(_b: &BigUint, _e: &[u64], _m: &BigUint) -> BigUint {
 #[kani::unwind(20)]
 #[kani::stub(crate::biguint::monty::monty_modpow, rec_monty)]
 #[kani::stub(plain_modpow, rec_plain)]
+#[kani::stub(crate::biguint::verif_common::symbolic, crate::biguint::verif_common::yes)]
 fn c12_q_modpow_dispatch() {
     let m0: [u64; 2] = vc::any_canon::<2>();
     let m = vc::mk_from(&m0);
+    if !vc::symbolic() {
+        // native replay: 3^5 mod m through the real routines
+        let r = modpow(&vc::mk_from(&[3]), &vc::mk_from(&[5]), &m);
+        kani::assert(vc::eq_window(vc::digits(&r), &[243]), "VERIF modpow dispatch: odd -> Montgomery, even -> plain");
+        return;
+    }
     unsafe { REC_WHICH = 0; }
     let _ = modpow(&vc::mk_from(&[3]), &vc::mk_from(&[5]), &m);
     kani::assert(unsafe { REC_WHICH } == if m0[0] & 1 == 1 { 1 } else { 2 }, "VERIF modpow dispatch: odd -> Montgomery, even -> plain");
